@@ -56,6 +56,11 @@ CHECKS = {
    text="Proof: Front/Bondgo.v models Expr_eval/Visit for declarations, assignment, literals, variables, + and *, IOWrite together with the allocator's lowest-free-register policy; compile_correct is proved by induction with an invariant relating allocator state, machine registers and the Go environment. Front/BondgoProto.v models visitor / Var_assigner / Usage_Monitor as rendezvous automata for every visitor behaviour; with the repaired shutdown order no reachable state is stuck, a measure decreases, and the final requirement is schedule independent; the old order is refuted by a concrete deadlock. Tie: random programs of the subset are compiled by the real binary (built with -tags verif) with the allocator's notifications delayed by 0/25 ms (quick) or 0/5/25/60 ms; assembly, reported register requirement and simulated outputs are compared with the model. Control flow, functions, goroutines and channels are outside the model (partial).",
    design_ref="DESIGN.md section 5, C12",
    note="Trusted: Coq kernel; hand-written models Front/Bondgo.v, Front/BondgoProto.v; Isa/Sim.v as the meaning of assembly (tied to the Go simulator in C09); the verif hook verifYieldBondgo."),
+ "C11": dict(
+   technique="Coq proof over a model regenerated from the Go source on every run (translators/gojson.py: struct definitions and the bodies of the four Jsoner/Dejsoner methods -> generated/GenJson.v): load(save m) = m on every described field, save(load(save m)) = save m, save(load j) = j when every name resolves, bonds/links carried verbatim; the generated functions are also evaluated on dumped machines and compared with the Go methods; saved machines are reloaded in a fresh process and compared on JSON bytes, struct fields, Verilog and simulation",
+   text="Proof on a translator-generated model: a field added to a struct but not copied by Jsoner/Dejsoner gets the Go zero value in the regenerated function and the round-trip theorem stops checking. Opcodes and shared instances are (name, identity) pairs; the registry, the dynamic-instruction families and Instantiate are parameters, the hypothesis 'registered' (every opcode resolves to itself by name) is what the harness checks for every opcode of every generated machine in a fresh process. Dynamic half: 36 (quick) / 400 machines incl. BASM output, shared objects, rsets* dynamic opcodes, threaded CPs, WordSize overrides. encoding/json is not modelled. Known finding: an unresolvable name is dropped silently.",
+   design_ref="DESIGN.md section 5, C11",
+   note="Trusted: Coq kernel; translators/gojson.py (validated by in-Coq evaluation against the Go methods each run); Front/Json.v loop-shape semantics; harness/c11.go reflect dump."),
 }
 NOT_APPLICABLE = []
 
